@@ -19,6 +19,8 @@ REQAPPLY = '_ZN8Pistache4Http7Private15RequestLineStep5applyERNS_12StreamCursorE
 RESPAPPLY = '_ZN8Pistache4Http7Private16ResponseLineStep5applyERNS_12StreamCursorE'
 UNITS['reqline'] = dict(src=HTTP, mode='sel', roots=[REQAPPLY], stubs=[RAISE, QADD])
 UNITS['respline'] = dict(src=HTTP, mode='sel', roots=[RESPAPPLY], stubs=[RAISE])
+HDRAPPLY = '_ZN8Pistache4Http7Private11HeadersStep5applyERNS_12StreamCursorE'
+UNITS['headers'] = dict(src=HTTP, mode='sel', roots=[HDRAPPLY], stubs=[RAISE])
 REAL = dict(real=ALL, shim=['harness/shim_guard.cc'])
 TV = dict(real=ALL + ['harness/shim_guard.cc'], n=300)
 HARNESSES = [
@@ -50,6 +52,15 @@ for n in (8, 9):
         HARNESSES.append(line_inst('req', n, k, ('quick', 'thorough') if n == 9 or k in (3, 6) else ('thorough',), witness=(k == 5), wq=1 if n == 9 else 0))
 for k in range(1, 13):
     HARNESSES.append(line_inst('resp', 13, k, ('quick', 'thorough') if k in (2, 7, 8, 9, 10, 11, 12) else ('thorough',), witness=(k == 10)))
+def hdr_inst(n, k, tiers, witness, we=1):
+    return dict(name='headers_n%d_k%d' % (n, k), units=['headers'], file='c01_headers.c', defs={'NN': n, 'K': k, 'WE': we, 'VP_DISPATCH_rvoid_u8p_u8p_u64': None}, unwind=n + 2, outer_unwind=n // 4 + 2,
+                tiers=tiers, witness=witness, timeout=1500,
+                bound='every header-section prefix of exactly %d bytes, cut after %d bytes; any registry predicate (one symbolic registered name), any deterministic rejection by the value parsers' % (n, k),
+                desc='L2 two-run for HeadersStep + C16(b): names/values handed to addRaw/parseRaw/cookie parsers are exactly the sent ranges')
+for k in range(1, 12):
+    HARNESSES.append(hdr_inst(12, k, ('thorough',), witness=(k == 7), we=2))
+for k in range(1, 8):
+    HARNESSES.append(hdr_inst(8, k, ('quick', 'thorough'), witness=(k == 4), we=1))
 def chunk_inst(n, k1, k2, tiers, witness):
     d = {'N': n, 'NFIX': n, 'K1FIX': k1, 'K2FIX': k2, 'D': 2 if k1 == k2 else 3, 'CHUNKED': None, 'REFERENCE': None, 'VP_DISPATCH_ru8p_u8p': None}
     return dict(name='chunk_n%d_k%d%s' % (n, k1, '' if k1 == k2 else '_%d' % k2), units=['body'], file='c01_body.c', defs=d, unwind=n + 3,
